@@ -238,3 +238,6 @@ for _p in ("C01", "C04"):
     PROPS[_p]["model_files"] = list(dict.fromkeys(PROPS[_p]["model_files"] + ENGINE_MODEL))
     PROPS[_p]["rule"] = PROPS[_p]["rule"] + " || engine level: " + ENGINE_RULE
     PROPS[_p]["assumptions"] = PROPS[_p].get("assumptions", []) + ENGINE_ASSUME
+
+for _p in ("C03", "C05", "C06", "C17", "C18", "C20"):
+    PROPS[_p] = _engine_prop("props/%si.v" % _p, [])
